@@ -59,10 +59,16 @@ func Content(cid, size int) []byte {
 		if i%32 == 0 && i > 0 {
 			h = sha256.Sum256(h[:])
 		}
-		out[i] = h[i%32]
-		if out[i] == 0 { // never produce the zero byte a fresh device holds
-			out[i] = 0xa5
+		// Bytes after the first are >= 0x40, the first byte is 1+cid (< 0x40): no
+		// content is a half of another one and distinct cids never collide, even
+		// for one-byte objects. The zero byte of a fresh device never occurs.
+		out[i] = 0x40 | h[i%32]
+	}
+	if size > 0 {
+		if cid < 0 || cid > 61 {
+			panic("cid out of range")
 		}
+		out[0] = byte(1 + cid)
 	}
 	return out
 }
@@ -82,6 +88,21 @@ type Log struct {
 	seq int
 	W   *hx.Writer
 	Mem []map[string]any
+	cur string // process released last by the cooperative scheduler ("" if unknown)
+}
+
+// SetCur records which logical process the scheduler lets run (cooperative mode).
+func (l *Log) SetCur(p string) {
+	l.mu.Lock()
+	l.cur = p
+	l.mu.Unlock()
+}
+
+// Cur returns the process currently running under the cooperative scheduler.
+func (l *Log) Cur() string {
+	l.mu.Lock()
+	defer l.mu.Unlock()
+	return l.cur
 }
 
 func (l *Log) Emit(ev map[string]any) {
@@ -156,7 +177,7 @@ func (b *recBlock) Get(d digest.Digest, offsetBytes, sizeBytes int64, cb buffer.
 func (b *recBlock) HasSpace(sizeBytes int64) bool { return b.base.HasSpace(sizeBytes) }
 func (b *recBlock) Put(sizeBytes int64) local.BlockPutWriter {
 	w := b.base.Put(sizeBytes)
-	b.a.log.Emit(map[string]any{"ev": "WriterStart", "blk": b.id, "region": b.region, "size": sizeBytes})
+	b.a.log.Emit(map[string]any{"ev": "WriterStart", "blk": b.id, "region": b.region, "size": sizeBytes, "p": b.a.log.Cur()})
 	return func(buf buffer.Buffer) local.BlockPutFinalizer {
 		f := w(buf)
 		b.a.log.Emit(map[string]any{"ev": "WriterEnd", "blk": b.id, "region": b.region})
@@ -210,7 +231,7 @@ func (f *recFactory) NewBufferFromReaderAt(d digest.Digest, r buffer.ReadAtClose
 	id := int(atomic.AddInt64(&f.st.readerSeq, 1))
 	blk := int(f.st.curBlock.Load())
 	atomic.AddInt64(&f.st.OpenReaders, 1)
-	f.log.Emit(map[string]any{"ev": "ReaderOpen", "rd": id, "blk": blk})
+	f.log.Emit(map[string]any{"ev": "ReaderOpen", "rd": id, "blk": blk, "p": f.log.Cur()})
 	return f.base.NewBufferFromReaderAt(d, &recReaderAt{ReadAtCloser: r, f: f, id: id, blk: blk}, sizeBytes, f.wrapCB(cb, blk))
 }
 
